@@ -4,7 +4,8 @@
 instance-based operations), functions, external entities with bridges, enumerations (modeled enumerator order) and
 constants into the rows `bridgepoint.ooaofooa.mk_component` reads:
 
-    O_OBJ, O_ATTR (R103 chain through PAttr_ID), O_BATTR, O_NBATTR, O_DBATTR, O_TFR, O_TPARM,
+    O_OBJ, O_ATTR (R103 chain through PAttr_ID), O_BATTR, O_NBATTR, O_DBATTR, O_RATTR, O_TFR, O_TPARM,
+    O_ID, O_OIDA, R_REL, R_SIMP, R_OIR, R_RGO, R_FORM, R_RTO, R_PART, O_RTIDA, O_REF (simple associations),
     S_SYNC, S_SPARM, S_EE, S_BRG, S_BPARM, S_DT, S_EDT, S_ENUM (R56 chain through Previous_Enum_ID),
     CNST_CSP, CNST_SYC, CNST_LFSC, CNST_LSC, and one EP_PKG with a PE_PE per packageable element.
 
@@ -43,6 +44,8 @@ class Ids(object):
 def model_sql(spec, rng=None):
     """spec = {'classes': [{'name','attrs': [(name, ty)], 'derived': [(name, ty, text)],
                             'ops': [(name, instance_based, ret_ty, [(pname, pty)], text)]}],
+               'assocs': [(numb, src_cls, ref_attr, src_many, src_cond, tgt_cls, id_attr, tgt_many, tgt_cond)]
+                          (a class's `attrs` lists the referential attribute as (name, 'ref')),
                'functions': [(name, ret_ty, params, text)], 'ees': [(key_lett, [(name, ret_ty, params, text)])],
                'enums': [(name, [enumerator...])], 'consts': [(name, ty, value_text)]}"""
     ids = Ids()
@@ -54,8 +57,12 @@ def model_sql(spec, rng=None):
         rows.append('INSERT INTO PE_PE VALUES (%s, 1, %s, %s, %d);' % (_uuid(elem), _uuid(pkg), _uuid(NULL), ty))
 
     numb = 0
+    obj_id = {}
+    attr_id = {}
+    late = []       # rows of referential attributes: they name the referred attribute, which may be defined later
     for c in spec['classes']:
         obj = ids.next()
+        obj_id[c['name']] = obj
         numb += 1
         pe(obj, 4)
         rows.append('INSERT INTO O_OBJ VALUES (%s, %s, %d, %s, %s, %s);' % (
@@ -64,6 +71,13 @@ def model_sql(spec, rng=None):
         allattrs = [(n, t, None) for n, t in c['attrs']] + [(n, t, text) for n, t, text in c.get('derived', [])]
         for n, t, text in allattrs:
             a = ids.next()
+            attr_id[(c['name'], n)] = a
+            if t == 'ref':
+                rows.append('INSERT INTO O_ATTR VALUES (%s, %s, %s, %s, %s, %s, %s, 0, %s, %s, %s);' % (
+                    _uuid(a), _uuid(obj), _uuid(prev), _s(n), _s(''), _s(''), _s(n), _uuid(DT_BASE + 7), _s(''), _s('')))
+                late.append((c['name'], n, a, obj))
+                prev = a
+                continue
             rows.append('INSERT INTO O_ATTR VALUES (%s, %s, %s, %s, %s, %s, %s, 0, %s, %s, %s);' % (
                 _uuid(a), _uuid(obj), _uuid(prev), _s(n), _s(''), _s(''), _s(n), _dt(t), _s(''), _s('')))
             rows.append('INSERT INTO O_BATTR VALUES (%s, %s);' % (_uuid(a), _uuid(obj)))
@@ -85,6 +99,30 @@ def model_sql(spec, rng=None):
                 rows.append('INSERT INTO O_TPARM VALUES (%s, %s, %s, %s, 0, %s, %s, %s);' % (
                     _uuid(p), _uuid(t), _s(pn), _dt(pt), _s(''), _uuid(prev_p), _s('')))
                 prev_p = p
+    for an, (rnumb, sc, ref, smany, scond, tc, idattr, tmany, tcond) in enumerate(spec.get('assocs', [])):
+        rel, oir_s, oir_t, aref = ids.next(), ids.next(), ids.next(), ids.next()
+        so, to = obj_id[sc], obj_id[tc]
+        ra, ia = attr_id[(sc, ref)], attr_id[(tc, idattr)]
+        pe(rel, 9)
+        rows.append('INSERT INTO R_REL VALUES (%s, %d, %s, %s);' % (_uuid(rel), rnumb, _s(''), _uuid(NULL)))
+        rows.append('INSERT INTO R_SIMP VALUES (%s);' % _uuid(rel))
+        rows.append('INSERT INTO R_OIR VALUES (%s, %s, %s, %s);' % (_uuid(so), _uuid(rel), _uuid(oir_s), _uuid(NULL)))
+        rows.append('INSERT INTO R_OIR VALUES (%s, %s, %s, %s);' % (_uuid(to), _uuid(rel), _uuid(oir_t), _uuid(NULL)))
+        rows.append('INSERT INTO R_RGO VALUES (%s, %s, %s);' % (_uuid(so), _uuid(rel), _uuid(oir_s)))
+        rows.append('INSERT INTO R_FORM VALUES (%s, %s, %s, %d, %d, %s);' % (
+            _uuid(so), _uuid(rel), _uuid(oir_s), 1 if smany else 0, 1 if scond else 0, _s('')))
+        rows.append('INSERT INTO R_RTO VALUES (%s, %s, %s, 0);' % (_uuid(to), _uuid(rel), _uuid(oir_t)))
+        rows.append('INSERT INTO R_PART VALUES (%s, %s, %s, %d, %d, %s);' % (
+            _uuid(to), _uuid(rel), _uuid(oir_t), 1 if tmany else 0, 1 if tcond else 0, _s('')))
+        if ('oid', tc) not in attr_id:
+            attr_id[('oid', tc)] = True
+            rows.append('INSERT INTO O_ID VALUES (0, %s);' % _uuid(to))
+            rows.append('INSERT INTO O_OIDA VALUES (%s, %s, 0, %s);' % (_uuid(ia), _uuid(to), _s(idattr)))
+        rows.append('INSERT INTO O_RTIDA VALUES (%s, %s, 0, %s, %s);' % (_uuid(ia), _uuid(to), _uuid(rel), _uuid(oir_t)))
+        rows.append('INSERT INTO O_REF VALUES (%s, %s, 0, %s, %s, %s, %s, %s, %s, %s, 0, %s, %s, %s, %s);' % (
+            _uuid(so), _uuid(to), _uuid(ia), _uuid(rel), _uuid(oir_s), _uuid(oir_t), _uuid(ra), _uuid(aref), _uuid(NULL),
+            _s(''), _s(''), _s(''), _s('')))
+        rows.append('INSERT INTO O_RATTR VALUES (%s, %s, %s, %s, 1, %s);' % (_uuid(ra), _uuid(so), _uuid(ia), _uuid(to), _s(idattr)))
     for k, (n, ret, params, text) in enumerate(spec.get('functions', [])):
         f = ids.next()
         pe(f, 1)
